@@ -47,6 +47,33 @@ def log_monotone(log, tol_rel=2e-4, tol_abs=1e-6):
     return None
 
 
+MARGIN_HITS = [0]
+
+
+def log_defect(reg, X, n_inputs, cap=5e-3):
+    """index of the first increase of the logged objective that the method's own tolerances do not explain, else None.
+    The LMI regressors replace strict inequalities by a margin `picos_eps` (default 1e-6): the storage / Lyapunov matrix
+    found by problem B then shrinks the feasible set of the next problem A a little, and the optimum can go up by a
+    multiple of that margin (observed: up to 1.1e-3 relative on the unchanged code, zero with picos_eps=0).  An increase
+    below `cap` that disappears when the same estimator is refitted on the same data with picos_eps=0 is attributed to
+    the margin and counted in MARGIN_HITS; anything else is reported."""
+    k = log_monotone(reg.objective_log_)
+    if k is None:
+        return None
+    lg = list(map(float, reg.objective_log_))
+    inc = (lg[k] - lg[k - 1]) / max(abs(lg[k - 1]), 1e-12)
+    if inc < cap and getattr(reg, 'picos_eps', 0):
+        try:
+            import sklearn.base
+            r0 = sklearn.base.clone(reg).set_params(picos_eps=0).fit(X, n_inputs=n_inputs, episode_feature=True)
+            if log_monotone(r0.objective_log_) is None:
+                MARGIN_HITS[0] += 1
+                return None
+        except Exception:  # noqa
+            pass
+    return k
+
+
 def hinf_norm(A, B, C=None, D=None, wfun=None, n=2500):
     """max over the unit circle of |w(e^{j theta})| * sigma_max(C (zI - A)^-1 B + D): a grid gives a LOWER
     bound of the H-infinity norm (refined around the peak), enough to expose a violated upper bound"""
